@@ -49,3 +49,174 @@ Proof.
   exists k. split; [exact Hk|]. exact (rle_stream_refines_lemma w _ _ ops Hw HD).
 Qed.
 Print Assumptions rle_stream_refines_own_output.
+
+(* ====================================================================================
+   C11, other encodings: restated from the enc2 engine (models Enc/Plain*, Delta*, DeltaLen*, DeltaStr*,
+   Bss*, Dict*; values are bit patterns, [len] is the length as N).
+   ==================================================================================== *)
+From Coq Require Import ZArith.
+From Carquet Require Import Base.Res Enc.DeltaBits
+  Enc.PlainSpec Enc.PlainModel Enc.PlainProofs Enc.BssSpec Enc.BssModel Enc.BssProofs
+  Enc.DeltaSpec Enc.DeltaModel Enc.DeltaArith Enc.DeltaProofs Enc.DeltaLenModel Enc.DeltaStrModel Enc.DeltaStrProofs
+  Enc.DictModel Enc.DictProofs.
+
+(* ---------------------------------------------------------------- PLAIN *)
+Theorem plain_roundtrip_boolean : forall vs, len vs < 2 ^ 63 ->
+  plain_decode_boolean (plain_encode_boolean vs) (len vs) = Ok (map truth vs, len (plain_encode_boolean vs)).
+Proof. exact PlainProofs.plain_roundtrip_boolean. Qed.
+Print Assumptions plain_roundtrip_boolean.
+
+Theorem plain_roundtrip_int32 : forall vs, Forall PlainProofs.u32v vs ->
+  plain_decode_int32 (plain_encode_int32 vs) (len vs) = Ok (vs, len (plain_encode_int32 vs)).
+Proof. exact PlainProofs.plain_roundtrip_int32. Qed.
+Print Assumptions plain_roundtrip_int32.
+
+Theorem plain_roundtrip_int64 : forall vs, Forall PlainProofs.u64v vs ->
+  plain_decode_int64 (plain_encode_int64 vs) (len vs) = Ok (vs, len (plain_encode_int64 vs)).
+Proof. exact PlainProofs.plain_roundtrip_int64. Qed.
+Print Assumptions plain_roundtrip_int64.
+
+Theorem plain_roundtrip_int96 : forall vs, Forall u96v vs ->
+  plain_decode_int96 (plain_encode_int96 vs) (len vs) = Ok (vs, len (plain_encode_int96 vs)).
+Proof. exact PlainProofs.plain_roundtrip_int96. Qed.
+Print Assumptions plain_roundtrip_int96.
+
+Theorem plain_roundtrip_float : forall vs, Forall PlainProofs.u32v vs ->
+  plain_decode_float (plain_encode_float vs) (len vs) = Ok (vs, len (plain_encode_float vs)).
+Proof. exact PlainProofs.plain_roundtrip_float. Qed.
+Print Assumptions plain_roundtrip_float.
+
+Theorem plain_roundtrip_double : forall vs, Forall PlainProofs.u64v vs ->
+  plain_decode_double (plain_encode_double vs) (len vs) = Ok (vs, len (plain_encode_double vs)).
+Proof. exact PlainProofs.plain_roundtrip_double. Qed.
+Print Assumptions plain_roundtrip_double.
+
+Theorem plain_roundtrip_byte_array : forall vs, Forall ba_ok vs ->
+  plain_decode_byte_array (plain_encode_byte_array vs) (len vs) = Ok (vs, len (plain_encode_byte_array vs)).
+Proof. exact PlainProofs.plain_roundtrip_byte_array. Qed.
+Print Assumptions plain_roundtrip_byte_array.
+
+Theorem plain_roundtrip_flba : forall raw count flen, flen <> 0 -> len raw = count * flen ->
+  plain_decode_flba (plain_encode_flba raw) count flen = Ok (raw, len (plain_encode_flba raw)).
+Proof. exact PlainProofs.plain_roundtrip_flba. Qed.
+Print Assumptions plain_roundtrip_flba.
+
+(* ---------------------------------------------------------------- DELTA_BINARY_PACKED *)
+Theorem delta64_roundtrip : forall vs, vs <> [] -> Forall DeltaProofs.u64v vs -> len vs < 2 ^ 31 ->
+  delta_decode_int64 (delta_bytes_int64 vs) (len vs) = Ok (vs, len (delta_bytes_int64 vs)).
+Proof. exact DeltaProofs.delta64_roundtrip. Qed.
+Print Assumptions delta64_roundtrip.
+
+Theorem delta32_roundtrip : forall vs, vs <> [] -> Forall DeltaProofs.u32v vs -> len vs < 2 ^ 31 ->
+  delta_decode_int32 (delta_bytes_int32 vs) (len vs) = Ok (vs, len (delta_bytes_int32 vs)).
+Proof. exact DeltaProofs.delta32_roundtrip. Qed.
+Print Assumptions delta32_roundtrip.
+
+(* the C entry points with their capacity checks write exactly [delta_bytes_*] whenever they report success *)
+Theorem delta_encode_int64_ok : forall vs cap bs, delta_encode_int64 vs cap = Ok bs -> bs = delta_bytes_int64 vs.
+Proof. exact DeltaProofs.delta_encode_int64_ok. Qed.
+Print Assumptions delta_encode_int64_ok.
+
+Theorem delta_encode_int32_ok : forall vs cap bs, delta_encode_int32 vs cap = Ok bs -> bs = delta_bytes_int32 vs.
+Proof. exact DeltaProofs.delta_encode_int32_ok. Qed.
+Print Assumptions delta_encode_int32_ok.
+
+(* zero values: as the C code behaves *)
+Theorem delta_empty_encode : forall cap, delta_encode_int64 [] cap = Ok [] /\ delta_encode_int32 [] cap = Ok [].
+Proof. exact DeltaProofs.delta_empty_encode. Qed.
+Print Assumptions delta_empty_encode.
+
+Theorem delta_empty_decode : delta_decode_int64 [] 0 = Err DeltaModel.ERR_DECODE /\ delta_decode_int32 [] 0 = Err DeltaModel.ERR_DECODE.
+Proof. exact DeltaProofs.delta_empty_decode. Qed.
+Print Assumptions delta_empty_decode.
+
+(* ---------------------------------------------------------------- DELTA_LENGTH / DELTA_BYTE_ARRAY *)
+Theorem delta_length_roundtrip : forall vs bs, vs <> [] -> Forall str_ok vs -> len vs < 2 ^ 31 ->
+  delta_length_encode vs = Ok bs -> delta_length_decode bs (len vs) = Ok (vs, len bs).
+Proof. exact DeltaStrProofs.delta_length_roundtrip. Qed.
+Print Assumptions delta_length_roundtrip.
+
+Theorem delta_strings_roundtrip : forall vs bs work_cap, vs <> [] -> Forall str_ok vs -> len vs < 2 ^ 31 ->
+  len (concat vs) <= work_cap -> delta_strings_encode vs = Ok bs ->
+  delta_strings_decode bs (len vs) work_cap = Ok (vs, len bs).
+Proof. exact DeltaStrProofs.delta_strings_roundtrip. Qed.
+Print Assumptions delta_strings_roundtrip.
+
+Theorem delta_length_empty : forall data, delta_length_encode [] = Err DeltaLenModel.ERR_INVALID_ARGUMENT /\
+  delta_length_decode data 0 = Err DeltaLenModel.ERR_INVALID_ARGUMENT.
+Proof. exact DeltaStrProofs.delta_length_empty. Qed.
+Print Assumptions delta_length_empty.
+
+Theorem delta_strings_empty : forall data cap, delta_strings_encode [] = Err DeltaLenModel.ERR_INVALID_ARGUMENT /\
+  delta_strings_decode data 0 cap = Err DeltaLenModel.ERR_INVALID_ARGUMENT.
+Proof. exact DeltaStrProofs.delta_strings_empty. Qed.
+Print Assumptions delta_strings_empty.
+
+(* ---------------------------------------------------------------- BYTE_STREAM_SPLIT *)
+Theorem bss_roundtrip_flba : forall k values count cap,
+  k <> 0 -> len values = count * k -> count * k < 2 ^ 64 -> count * k <= cap ->
+  exists enc, bss_encode k values count cap = Ok enc /\ len enc = count * k /\ bss_decode k enc count = Ok values.
+Proof. exact BssProofs.bss_roundtrip_flba. Qed.
+Print Assumptions bss_roundtrip_flba.
+
+Theorem bss_roundtrip_float : forall values count cap, len values = count * 4 -> count * 4 < 2 ^ 64 -> count * 4 <= cap ->
+  exists enc, bss_encode_float values count cap = Ok enc /\ len enc = count * 4 /\ bss_decode_float enc count = Ok values.
+Proof. exact BssProofs.bss_roundtrip_float. Qed.
+Print Assumptions bss_roundtrip_float.
+
+Theorem bss_roundtrip_double : forall values count cap, len values = count * 8 -> count * 8 < 2 ^ 64 -> count * 8 <= cap ->
+  exists enc, bss_encode_double values count cap = Ok enc /\ len enc = count * 8 /\ bss_decode_double enc count = Ok values.
+Proof. exact BssProofs.bss_roundtrip_double. Qed.
+Print Assumptions bss_roundtrip_double.
+
+(* ---------------------------------------------------------------- dictionary *)
+(* relative to the index-stream codec (carquet_rle_encode_all / carquet_rle_decode_all): any pair with the round-trip
+   property; the RLE engine proves it for Enc/RleModel.v *)
+Theorem dict_roundtrip_fixed : forall (rle_encode : N -> list N -> list N) (rle_decode : N -> list N -> N -> res (list N)),
+  (forall w ix, w <= 32 -> Forall (fun i => i < 2 ^ w) ix -> rle_decode w (rle_encode w ix) (len ix) = Ok ix) ->
+  forall k vs, (0 < k)%nat -> Forall (fun v => v < 256 ^ N.of_nat k) vs -> len vs < 2 ^ 31 ->
+  let '(d, ixs) := dict_encode_fixed rle_encode k vs in
+  dict_decode_fixed rle_decode k d (Z.of_N (len d / N.of_nat k)) ixs (len vs) = Ok vs.
+Proof. exact DictProofs.dict_roundtrip_fixed. Qed.
+Print Assumptions dict_roundtrip_fixed.
+
+Theorem dict_roundtrip_int32 : forall (rle_encode : N -> list N -> list N) (rle_decode : N -> list N -> N -> res (list N)),
+  (forall w ix, w <= 32 -> Forall (fun i => i < 2 ^ w) ix -> rle_decode w (rle_encode w ix) (len ix) = Ok ix) ->
+  forall vs, Forall (fun v => v < 2 ^ 32) vs -> len vs < 2 ^ 31 ->
+  let '(d, ixs) := dict_encode_fixed rle_encode 4 vs in
+  dict_decode_fixed rle_decode 4 d (Z.of_N (len d / 4)) ixs (len vs) = Ok vs.
+Proof. exact DictProofs.dict_roundtrip_int32. Qed.
+Print Assumptions dict_roundtrip_int32.
+
+Theorem dict_roundtrip_int64 : forall (rle_encode : N -> list N -> list N) (rle_decode : N -> list N -> N -> res (list N)),
+  (forall w ix, w <= 32 -> Forall (fun i => i < 2 ^ w) ix -> rle_decode w (rle_encode w ix) (len ix) = Ok ix) ->
+  forall vs, Forall (fun v => v < 2 ^ 64) vs -> len vs < 2 ^ 31 ->
+  let '(d, ixs) := dict_encode_fixed rle_encode 8 vs in
+  dict_decode_fixed rle_decode 8 d (Z.of_N (len d / 8)) ixs (len vs) = Ok vs.
+Proof. exact DictProofs.dict_roundtrip_int64. Qed.
+Print Assumptions dict_roundtrip_int64.
+
+Theorem dict_roundtrip_float : forall (rle_encode : N -> list N -> list N) (rle_decode : N -> list N -> N -> res (list N)),
+  (forall w ix, w <= 32 -> Forall (fun i => i < 2 ^ w) ix -> rle_decode w (rle_encode w ix) (len ix) = Ok ix) ->
+  forall vs, Forall (fun v => v < 2 ^ 32) vs -> len vs < 2 ^ 31 ->
+  let '(d, ixs) := dict_encode_fixed rle_encode 4 vs in
+  dict_decode_fixed rle_decode 4 d (Z.of_N (len d / 4)) ixs (len vs) = Ok vs.
+Proof. exact DictProofs.dict_roundtrip_float. Qed.
+Print Assumptions dict_roundtrip_float.
+
+Theorem dict_roundtrip_double : forall (rle_encode : N -> list N -> list N) (rle_decode : N -> list N -> N -> res (list N)),
+  (forall w ix, w <= 32 -> Forall (fun i => i < 2 ^ w) ix -> rle_decode w (rle_encode w ix) (len ix) = Ok ix) ->
+  forall vs, Forall (fun v => v < 2 ^ 64) vs -> len vs < 2 ^ 31 ->
+  let '(d, ixs) := dict_encode_fixed rle_encode 8 vs in
+  dict_decode_fixed rle_decode 8 d (Z.of_N (len d / 8)) ixs (len vs) = Ok vs.
+Proof. exact DictProofs.dict_roundtrip_double. Qed.
+Print Assumptions dict_roundtrip_double.
+
+(* BYTE_ARRAY has no dictionary decoder in dictionary.c: the dictionary page is the PLAIN encoding of the distinct
+   values in first-occurrence order and every index selects its value *)
+Theorem dict_byte_array_sound : forall (rle_encode : N -> list N -> list N) vs,
+  let '(d, ix) := build vs [] in
+  fst (dict_encode_byte_array rle_encode vs) = plain_encode_byte_array d /\
+  Forall2 (fun v i => nth_error d (N.to_nat i) = Some v) vs ix /\ NoDup d.
+Proof. exact DictProofs.dict_byte_array_sound. Qed.
+Print Assumptions dict_byte_array_sound.
